@@ -3,11 +3,14 @@ package main
 import (
 	"context"
 	"fmt"
+	"google.golang.org/grpc/codes"
+	"google.golang.org/grpc/status"
 	"io"
 	"net/http"
 	"net/http/httptest"
 	"net/url"
 	"runtime"
+	"sync/atomic"
 	"time"
 
 	"google.golang.org/grpc"
@@ -198,6 +201,77 @@ func runC05HTTP(o *hx.Out, r *hx.Rand, thorough bool) {
 			map[string]interface{}{"transport": t.name, "scenario": "handler: 5 sends on one goroutine, receives on another; client: 6 sends, CloseSend, then receives", "completed_in_3s": ok, "client_sends_ok": sends, "client_received": got, "final": fmt.Sprint(fin)},
 			"a handler sending and receiving concurrently deadlocked with a client that sends before it receives")
 		t.stop()
+	}
+	// (c2b) a second handler goroutine is parked in SendMsg (the client is not receiving yet, the buffer is
+	// full) at the moment the handler returns: the parked send must return (nil, io.EOF or another error),
+	// nothing may panic (a send on the closed response channel), and the client then drains to the status
+	for _, code := range []codes.Code{codes.OK, codes.Aborted} {
+		for _, t := range bothTransports(nil) {
+			t.stop()
+			var pushed int32
+			var pushErr, pushPanic atomic.Value
+			pushDone := make(chan struct{})
+			svc := &hx.Svc{Stream: func(kind string, ss grpc.ServerStream) error {
+				go func() {
+					defer close(pushDone)
+					defer func() {
+						if r := recover(); r != nil {
+							pushPanic.Store(fmt.Sprint(r))
+						}
+					}()
+					for i := 0; i < 50; i++ {
+						if err := ss.SendMsg(&hx.Msg{Count: int32(i)}); err != nil {
+							pushErr.Store(err.Error())
+							return
+						}
+						atomic.AddInt32(&pushed, 1)
+					}
+				}()
+				time.Sleep(40 * time.Millisecond) // the pusher fills the buffer and parks
+				if code != codes.OK {
+					return status.Error(code, "handler gave up")
+				}
+				return nil
+			}}
+			tt := bothTransports(svc)
+			var t2 transportT
+			for _, x := range tt {
+				if x.name == t.name {
+					t2 = x
+				} else {
+					x.stop()
+				}
+			}
+			got := 0
+			var fin error
+			ctx, cancel := context.WithTimeout(context.Background(), 4*time.Second)
+			ok := within(3*time.Second, func() {
+				cs, err := t2.ch.NewStream(ctx, hx.StreamDescOf("BD"), "/verif.Svc/BD")
+				if err != nil {
+					fin = err
+					return
+				}
+				cs.CloseSend()
+				time.Sleep(120 * time.Millisecond) // the handler has returned by now; only then start receiving
+				for {
+					if fin = cs.RecvMsg(&hx.Msg{}); fin != nil {
+						break
+					}
+					got++
+				}
+				runtime.KeepAlive(cs)
+			})
+			pusherEnded := within(2*time.Second, func() { <-pushDone })
+			cancel()
+			pp, _ := pushPanic.Load().(string)
+			pe, _ := pushErr.Load().(string)
+			finOK := fin != nil && ((code == codes.OK && fin == io.EOF) || (code != codes.OK && status.Code(fin) == code))
+			probe("second_handler_goroutine_parked_in_send_at_return_"+t2.name, ok && pusherEnded && pp == "" && finOK,
+				map[string]interface{}{"transport": t2.name, "handler_returns": code.String(), "scenario": "a second handler goroutine keeps sending; the client receives only after the handler has returned",
+					"client_completed_in_3s": ok, "client_received": got, "final": fmt.Sprint(fin), "pusher_sends_ok": atomic.LoadInt32(&pushed), "pusher_last_error": pe, "pusher_panic": pp, "pusher_ended": pusherEnded},
+				"a handler goroutine parked in SendMsg when the handler returned panicked, stayed blocked, or the client did not get the handler's status")
+			t2.stop()
+		}
 	}
 	// (c3) a single-response method whose handler keeps sending: the client's call fails at the second
 	// response and the library then lets go of the exchange (the handler's context ends, no goroutine stays)
